@@ -155,6 +155,13 @@ pub enum M {
     GovVote,
     Stargate,
     Custom,
+    /// bank send to a recipient string that is not a normalized address: 0 = a module-account
+    /// style name, 1 = an upper-cased bech32 address, 2 = the empty string
+    SendTo(u8, Vec<(u8, Amt)>),
+    /// WasmMsg::Migrate / UpdateAdmin / ClearAdmin naming the proxy itself (own) or another contract
+    WasmMigrate { own: bool },
+    WasmUpdateAdmin { own: bool },
+    WasmClearAdmin { own: bool },
     /// WasmMsg::Execute addressed to the proxy itself (only meaningful when relayed messages are
     /// dispatched): the inner call runs with the proxy's own address as sender
     SelfCall(Inner),
@@ -176,6 +183,10 @@ impl M {
         match self {
             M::Send(_) => "bank-send",
             M::SendSelf(_) => "bank-send-to-proxy",
+            M::SendTo(..) => "bank-send-odd-recipient",
+            M::WasmMigrate { .. } => "wasm-migrate",
+            M::WasmUpdateAdmin { .. } => "wasm-update-admin",
+            M::WasmClearAdmin { .. } => "wasm-clear-admin",
             M::Burn(_) => "bank-burn",
             M::Delegate => "delegate",
             M::Undelegate => "undelegate",
@@ -235,6 +246,30 @@ pub fn to_cosmos(actors: &[&'static str], m: &M) -> CosmosMsg {
             contract_addr: proxy_addr(),
             msg: cosmwasm_std::to_json_binary(&inner_msg(actors, i)).unwrap(),
             funds: vec![],
+        }
+        .into(),
+        M::SendTo(k, v) => BankMsg::Send {
+            to_address: match k {
+                0 => "community-pool".to_string(),
+                1 => addr_cached("dest").to_uppercase(),
+                _ => String::new(),
+            },
+            amount: coins_of(v),
+        }
+        .into(),
+        M::WasmMigrate { own } => WasmMsg::Migrate {
+            contract_addr: if *own { proxy_addr() } else { addr_cached("other") },
+            new_code_id: 7,
+            msg: Binary::from(b"{}".to_vec()),
+        }
+        .into(),
+        M::WasmUpdateAdmin { own } => WasmMsg::UpdateAdmin {
+            contract_addr: if *own { proxy_addr() } else { addr_cached("other") },
+            admin: addr_cached("dest"),
+        }
+        .into(),
+        M::WasmClearAdmin { own } => WasmMsg::ClearAdmin {
+            contract_addr: if *own { proxy_addr() } else { addr_cached("other") },
         }
         .into(),
         M::SendSelf(v) => BankMsg::Send {
@@ -452,8 +487,27 @@ impl Cfg {
             wasm_admin: None,
         }
     }
+    /// Address of an actor. Labels "pre:L" / "ext:L" / "hrp" name look-alike senders that are not
+    /// valid addresses themselves: L's address without its last character, L's address with one
+    /// more character, and the bare bech32 prefix. They can only be callers (they must come last in
+    /// `actors`): nobody can name them in a list or query them.
     pub fn addr(&self, i: u8) -> String {
-        addr_cached(self.actors[i as usize])
+        let l = self.actors[i as usize];
+        if let Some(b) = l.strip_prefix("pre:") {
+            let mut a = addr_cached(b);
+            a.pop();
+            a
+        } else if let Some(b) = l.strip_prefix("ext:") {
+            format!("{}q", addr_cached(b))
+        } else if l == "hrp" {
+            "cosmwasm1".to_string()
+        } else {
+            addr_cached(l)
+        }
+    }
+    /// number of actors with a real address (the look-alike senders come after them)
+    pub fn n_real(&self) -> u8 {
+        self.actors.iter().filter(|l| !(l.starts_with("pre:") || l.starts_with("ext:") || **l == "hrp")).count() as u8
     }
     pub fn label(&self, i: u8) -> &'static str {
         self.actors[i as usize]
@@ -594,7 +648,7 @@ pub fn not_covered(kind: Kind, r: &Ref, caller: u8, msgs: &[M], h: u64, t: u64) 
     let flags = r.perms.get(&caller).copied().unwrap_or(0);
     for (i, m) in msgs.iter().enumerate() {
         let need = match m {
-            M::Send(coins) | M::SendSelf(coins) => {
+            M::Send(coins) | M::SendSelf(coins) | M::SendTo(_, coins) => {
                 match r.allow.get(&caller) {
                     None => return Some(("no_allowance", format!("message {i}: bank send but the caller has no allowance"))),
                     Some((am, e)) => {
@@ -647,7 +701,7 @@ impl Cw1Model {
         if cfg.kind == Kind::Whitelist {
             return Ok(o);
         }
-        for i in 0..cfg.actors.len() as u8 {
+        for i in 0..cfg.n_real() {
             let a: Allowance = self.q(w, &QueryMsg::Allowance { spender: cfg.addr(i) })?;
             o.allow.push((amounts_of(&a.balance, &mut o.foreign_denom), ExpKey::from(&a.expires)));
             let p: Permissions = self.q(w, &QueryMsg::Permissions { spender: cfg.addr(i) })?;
@@ -705,7 +759,7 @@ impl Cw1Model {
         }
         let empty = Amounts::new();
         let mut expect_listed: BTreeMap<String, (Amounts, ExpKey)> = BTreeMap::new();
-        for k in 0..cfg.actors.len() as u8 {
+        for k in 0..cfg.n_real() {
             let (wa, we) = match r.visible(k, h, t) {
                 Some((m, e)) => (m, Some(e)),
                 None => (&empty, None),
@@ -964,7 +1018,7 @@ impl Cw1Model {
                 String::new()
             }
         );
-        for k in 0..cfg.actors.len() as u8 {
+        for k in 0..cfg.n_real() {
             let (pa, pe) = &pre.allow[k as usize];
             let (qa, qe) = &post.allow[k as usize];
             let amt = |m: &Amounts, d: u8| m.get(&d).copied().unwrap_or(0);
@@ -1520,7 +1574,7 @@ impl Model for Cw1Model {
                 // the ledger: a non-admin's sends come out of its allowance, coin by coin
                 if cfg.kind == Kind::Subkeys && !by_admin {
                     for m in msgs {
-                        if let M::Send(coins) | M::SendSelf(coins) = m {
+                        if let M::Send(coins) | M::SendSelf(coins) | M::SendTo(_, coins) = m {
                             for (d, amt) in coins {
                                 if let Some((am, _)) = r.allow.get_mut(&by) {
                                     let c = am.get(d).copied().unwrap_or(0);
